@@ -98,6 +98,15 @@ def classify(expr: ast.AST):
 
 def gate_and_terms(ctx, col):
     repo = ctx.repo
+    from ..rules import rtolpos as _rtolpos
+    _rtolpos.run(ctx, col, ("swcgeom.analysis.volume._get_volume_frustum_cone", "swcgeom.analysis.volume._get_volume_frustum_cone.<locals>.leave",
+                            "swcgeom.analysis.volume.get_volume"), rule="R-RTOLPOS")
+    _rtolpos.run_conjoined(ctx, col, ("swcgeom.utils.volumetric_object.VolSphereFrustumConeIntersection._get_volume",
+                                      "swcgeom.utils.volumetric_object.VolSphereFrustumConeIntersection.calc_concentric_intersect_volume"))
+    col.rule("R-PAIR", "an end of a frustum is the centre and the radius of the SAME end: no 2-tuple and no pair of closeness tests takes the centre of "
+             "one end with the radius of the other (zero expected; positive examples kept)", floor=1)
+    from ..rules import endpair as _endpair
+    _endpair.check(ctx, col, "R-PAIR", ("swcgeom.utils.volumetric_object", "swcgeom.analysis.volume", "swcgeom.utils.solid_geometry"))
     d = repo.get_def(FN)
     if "leave" not in d.nested:
         raise AnalysisError("anchor-vanished: the `leave` callback of _get_volume_frustum_cone")
